@@ -13,6 +13,6 @@ def run(out, sc, tier, seed):
     run_model(out, sc, "MC_Join", ["Inv_C14_NoExclusion"], label="MC_Join[negative: no deviation region]",
               expect_violation="Inv_C14_NoExclusion", what="non-vacuity: Dev_JoinRootlessBase must be found by TLC")
     out.exhaustive = True
-    n = 15000 if tier == "quick" else 400000
+    n = 15000 if tier == "quick" else 120000
     run_progs(out, sc, "C14", {"gen": "progs", "n": n, "seed": seed, "fields": FIELDS, "ops": ["join"], "depths": [1, 1, 2],
                                "build_p": 0.1}, "join")
